@@ -225,6 +225,7 @@ func checkC02(c *Ctx) {
 	ruleT1(c)
 	ruleX1(c, 10)
 	ruleR1(c, allPkgs, 2)
+	ruleU9(c)
 	ruleT3(c, pipePkgs, 8)
 	ruleX5b(c)
 	ruleX1b(c)
@@ -411,6 +412,7 @@ func checkC15(c *Ctx) {
 	ruleU8(c)
 	lockRules(c, map[string]bool{"fun.limitExec": true, "fun.ttlExec": true}, map[string]int{"L1": 2})
 	ruleOnce(c)
+	ruleU9(c)
 	// the StartGroup / Launch waiters are WaitGroup.Wait
 	wgOwner := map[string]bool{"fun.WaitGroup": true}
 	condRules(c, wgOwner, map[string]int{"W1": 1, "W2": 1, "W2b": 1, "W3": 1, "W4": 2, "W6": 1, "W8": 1})
@@ -434,6 +436,7 @@ func checkC16(c *Ctx) {
 	ruleQ67(c)
 	ruleD3k(c)
 	ruleX10(c, "dt", "List", 4)
+	ruleQ8(c)
 }
 
 func checkC17(c *Ctx) {
